@@ -114,6 +114,12 @@ def scanner(ret_kind: str | None, stop: str, extra_ens=(), loops=1, extra_inv=()
 NOT_EOF = "k != Kind::Eof"
 
 CONTRACTS = {
+    # the lexer starts at byte 0 of exactly the text it was given (nothing is skipped up front)
+    "new": {
+        "ret": "r",
+        "requires": ["input@.len() <= " + MAXLEN],
+        "ensures": ["wf(r)", "r.pos == 0", "r.input@ == input@", "!r.after_backslash", "!r.after_number_or_float"],
+    },
     "nth": {
         "ret": "r",
         "requires": ["wf(*self)", "index <= 4"],
@@ -159,7 +165,25 @@ CONTRACTS = {
     "is_ascii_whitespace": {"ret": "r", "ensures": ["r ==> (byte != 0 && byte < 0x80)"]},
 }
 
+# Vacuity probes: proof functions that MUST FAIL (their `ensures false` is provable only if the
+# hypotheses used by the contracts are contradictory).  The driver requires each of them to be
+# reported as an error by Verus on every run; a probe that verifies makes the whole unit UNDECIDED.
+PROBES = ["fv_vacuity_probe_wf_and_utf8", "fv_vacuity_probe_stop_clauses"]
+
 LEMMAS = r"""
+pub proof fn fv_vacuity_probe_wf_and_utf8(l: Lexer)
+    requires wf(l), l.pos < l.input@.len(), l.input@.len() >= 3, utf8_shape(l.input@), boundary(l.input@, l.pos as int),
+        l.input@[0] >= 0xC0, cont(l.input@[1]),
+    ensures false,
+{
+}
+
+pub proof fn fv_vacuity_probe_stop_clauses(s: Seq<u8>, a: int, b: int)
+    requires 0 <= a < b < s.len(), ascii_stop(s, a, b), delim_stop(s, a, b), utf8_shape(s), boundary(s, a), boundary(s, b),
+    ensures false,
+{
+}
+
 // ---- the tiling lemma: iterating next_token from 0 until Eof consumes the whole input ------
 // Model of a driver loop over the *contract* of next_token only (T1-T3): if each step returns
 // a length with pos' == pos + len, len >= 1 while pos < n, then after at most n steps pos == n,
